@@ -41,6 +41,16 @@ func H11Enabled() {
 	d1.Metadata.Dependencies = []*chart.Dependency{{Name: "g", Version: "0.1.0", Condition: "g.enabled"}}
 	d1.SetDependencies(g)
 	sub := mkSub("sub")
+	// the aliased chart's OWN defaults may answer its condition (second.enabled)
+	subDef, subDefP, _ := ndSwitchN("subdefaults.enabled", 3)
+	if subDefP {
+		sub.Values["enabled"] = subDef
+	}
+	// ... and d1's own defaults may answer its grandchild's condition (d1.g.enabled)
+	gDef, gDefP, _ := ndSwitchN("d1defaults.g.enabled", 3)
+	if gDefP {
+		d1.Values["g"] = map[string]interface{}{"enabled": gDef}
+	}
 	// d1: up to two condition paths and up to two tags; "sub" imported under the alias "second"
 	conds := []string{"", "d1.enabled", "d1.enabled,flags.on", "flags.on,d1.enabled", " d1.enabled "}[ndChoice("d1.condition", 5)]
 	tags := [][]string{nil, {"t1"}, {"t1", "t2"}}[ndChoice("d1.tags", 3)]
@@ -131,12 +141,21 @@ func H11Enabled() {
 		}
 	}
 	wantD1 := decide(paths, lookup, tagVals)
+	// user values win over the chart's own defaults (a user table/string hides a default boolean)
 	wantSecond := true
-	if b, ok := sen.(bool); ok && senP {
+	if senP {
+		if b, ok := sen.(bool); ok {
+			wantSecond = b
+		}
+	} else if b, ok := subDef.(bool); ok && subDefP {
 		wantSecond = b
 	}
 	wantG := wantD1
-	if b, ok := gen.(bool); ok && genP {
+	if genP {
+		if b, ok := gen.(bool); ok {
+			wantG = wantD1 && b
+		}
+	} else if b, ok := gDef.(bool); ok && gDefP {
 		wantG = wantD1 && b
 	}
 
